@@ -28,8 +28,11 @@ func init() {
 			"(verbatim) every string the formatter family (the Node method of type func([]string) []string and the helpers it calls) puts into the fragment slice is a constant or a string read from the AST (uniquestr.Handle.Value() / a field), possibly concatenated, " +
 			"never the result of a call or operation applied to such a string — the tokenizer takes the bytes between quotes verbatim, so any escaping/trimming/case-folding of a label name or value changes what the canonical text parses back to — " +
 			"and the field returned by Selector.String() is only ever assigned strings.Join(<collected fragments>, \"\"); " +
-			"(nodes) every Node implementation is constructed by the parser, and every one with a LabelName field has its LabelName rewritten in a case of PrefixVisitor.Visit.",
-		NotDecided: "Full round-trip equality (choice of the quote character for a value, nesting/parenthesisation, set literal ordering and hash identity) and Evaluate equivalence after re-parsing; panics (index out of range) inside AST construction; the tokenizer's acceptance itself (shared by both modes).",
+			"(nodes) every Node implementation is constructed by the parser, and every one with a LabelName field has its LabelName rewritten in a case of PrefixVisitor.Visit; " +
+			"(hash) the identity hash is a function of the current canonical text: with T the field Selector.String() returns and H the field Selector.UniqueID() returns, every function that assigns T assigns H of the same selector on every path through that assignment " +
+			"(the text is rebuilt after parsing by Selector.AcceptVisitor), every value assigned to H is \"\" or computed from the text current at that point (the value assigned to T, a read of T not followed by the function's own assignment of T, or a fresh run of the fragment collector), " +
+			"and if H can be invalidated it is read only by the function that recomputes it; if UniqueID() caches nothing it must be computed from T.",
+		NotDecided: "Full round-trip equality (choice of the quote character for a value, nesting/parenthesisation, set literal ordering; for the hash only that it is the hash function applied to the current canonical text, not the function itself) and Evaluate equivalence after re-parsing; panics (index out of range) inside AST construction; the tokenizer's acceptance itself (shared by both modes).",
 		Assumptions: []string{
 			"go/types + go/ssa (x/tools v0.50.0) model of the current source, CGO_ENABLED=0 build",
 			"uniquestr.Make, logrus calls, builtins and methods invoked only on freshly built AST values (Node/*Selector) neither fail nor touch parser-visible state",
@@ -67,6 +70,12 @@ func init() {
 				Old: "\tstr := strings.Join(fragments, \"\")\n", New: "\tstr := strings.Join(fragments, \" \")\n", Expect: "C06.verbatim/join/"},
 			{Name: "PrefixVisitor forgets LabelInSetNode", File: "libcalico-go/lib/selector/parser/ast.go",
 				Old: "\tcase *LabelInSetNode:\n\t\tnp.LabelName = uniquestr.Make(fmt.Sprintf(\"%s%s\", v.Prefix, np.LabelName.Value()))\n", New: "", Expect: "C06.nodes/visit/LabelInSetNode"},
+			{Name: "identity hash computed only once although the text can be rebuilt", File: "libcalico-go/lib/selector/parser/ast.go",
+				Old: "\tsel.stringRep = str\n\tsel.hash = hash.MakeUniqueID(\"s\", str)\n", New: "\tsel.stringRep = str\n\tif sel.hash == \"\" {\n\t\tsel.hash = hash.MakeUniqueID(\"s\", str)\n\t}\n",
+				Expect: "C06.hash/cowrite/Selector.updateFields"},
+			{Name: "identity hash computed from the previous text", File: "libcalico-go/lib/selector/parser/ast.go",
+				Old: "\tsel.stringRep = str\n\tsel.hash = hash.MakeUniqueID(\"s\", str)\n", New: "\tsel.hash = hash.MakeUniqueID(\"s\", sel.stringRep)\n\tsel.stringRep = str\n",
+				Expect: "C06.hash/value/Selector.updateFields"},
 		},
 	})
 }
@@ -83,6 +92,9 @@ func runC06(c *Ctx) {
 	c06OpTable(c, p, fam)
 	c06Nodes(c, p, fam)
 	c06Verbatim(c, p)
+
+	c.Rule("C06.hash", "E-PAIR/E-FLOW", "the cached identity hash is a function of the current canonical text: the field UniqueID() returns is assigned wherever the field String() returns is assigned, and only values computed from that text (or \"\" to invalidate)", 2)
+	c06Hash(c, p)
 }
 
 func c06NodeTypes(c *Ctx, p *Prog) (nodeI *types.Interface, nodeT types.Type, impls []*types.Named) {
